@@ -48,7 +48,7 @@ pub fn first_diff(a: &str, b: &str) -> String {
 
 /// The errors and binding rules C10 names, as fixed sessions: (lines typed, then expected transcript
 /// of the last one; `*` in the expectation stands for any text without a line break).
-const C10_CORPUS: [(&[&str], &str); 17] = [
+const C10_CORPUS: [(&[&str], &str); 22] = [
     (&["10 DEF FNA(X)=X*2", "20 PRINT FNA(3)", "RUN", "DELETE 10", "PRINT FNA(3)"], "?UNDEFINED USER FUNCTION\nREADY.\n<STOPPED>"),
     (&["10 DEF FNA(X)=X*2", "20 PRINT FNA(3)", "RUN", "RENUM", "PRINT FNA(3)"], "?UNDEFINED USER FUNCTION\nREADY.\n<STOPPED>"),
     (&["10 N=4", "20 DEF FNM$(S$,N)=MID$(S$,N,1)", "30 PRINT FNM$(\"HELLO\",2)", "RUN"], "E\nREADY.\n<STOPPED>"),
@@ -66,6 +66,11 @@ const C10_CORPUS: [(&[&str], &str); 17] = [
     (&["10 DEF FNA(X)=X+1", "20 PRINT FNA(1)", "RUN", "PRINT FNA(5)"], " 6 \nREADY.\n<STOPPED>"),
     (&["10 DEF FNA(X)=X+1", "20 PRINT FNA(1)", "RUN", "CLEAR", "PRINT FNA(5)"], "?UNDEFINED USER FUNCTION\nREADY.\n<STOPPED>"),
     (&["10 A=1:B=2", "20 DEF FNS(A,B)=A*10+B", "30 PRINT FNS(B,A);A;B", "RUN"], " 21  1  2 \nREADY.\n<STOPPED>"),
+    (&["IF 1 THEN DEF FNA(X)=X*2"], "?ILLEGAL DIRECT\nREADY.\n<STOPPED>"),
+    (&["IF 0 THEN PRINT 1 ELSE DEF FNA(X)=X*2"], "?ILLEGAL DIRECT\nREADY.\n<STOPPED>"),
+    (&["10 DEF FNA(X)=X+1", "20 PRINT FNA(1)", "RUN", "IF 1 THEN DEF FNA(X)=X*100", "PRINT FNA(1)"], " 2 \nREADY.\n<STOPPED>"),
+    (&["10 V#=7:W%=3:S$=\"KEEP\"", "20 DEF FNH#(V#,W%,S$)=V#*2+W%+LEN(S$)", "30 PRINT FNH#(5,1,\"AB\");V#;W%;S$", "RUN"], " 13  7  3 KEEP\nREADY.\n<STOPPED>"),
+    (&["10 DEF FNI#(N#)=N#+1", "20 DEF FNO#(N#)=FNI#(N#*10)+N#", "30 PRINT FNO#(2)", "RUN"], " 23 \nREADY.\n<STOPPED>"),
 ];
 
 fn c10_corpus_case(i: usize, ctx: &mut Ctx) {
